@@ -161,6 +161,8 @@ def build(tier, work, builder):
     for lab in ("PROBA_MIN_BOX", "PROBA_MIN_DIAMOND", "PROBA_BOX", "PROBA_DIAMOND", "PROBA_EXP", "PROBA_CMP"):  # X_BOX sets the flag and falls through into X_DIAMOND
         cl = X.switch_clause(src, f"expression_t::print:case {lab}", pf, lab)
         cl.sub("L12:print on a child->contract", r"\)\.print\(", ").print__contract(")
+        X.hoist_enclosing_lambdas(src, pf, cl)
+        cl.sub("L12:print on a child->contract (inside a hoisted lambda)", r"\)\.print\(", ").print__contract(")
         X.lower_local_lambdas(cl)
         cl.sub("glue:kind_t::BOX->BOX", r"\bkind_t::(BOX|DIAMOND)\b", r"\1")
         qcl.append(cl)
